@@ -47,6 +47,7 @@ def cases(draw, tier):
         'dictionary': draw(st.sampled_from([None, None, None, ['the', 'and'], ['zz']])),
         'map': None,
     }
+    case['map_order'] = draw(st.sampled_from([0, 0, 1, 2]))
     mk = draw(st.sampled_from(['none', 'none', 'trace', 'trace', 'trace', 'set']))
     if mk != 'none':
         fmt = draw(st.sampled_from(['z80', 'specemu', 'rzxplay', 'fuse', 'spud']))
@@ -82,7 +83,11 @@ def trace_addresses(start, data, entries, steps):
     return sorted(seen)
 
 
-def write_map(s, fmt, addrs):
+def write_map(s, fmt, addrs, order=0):
+    if order and fmt in ('rzxplay', 'fuse', 'spud'):
+        # logs and profiles list addresses in the order (and as often as) the emulator saw them
+        addrs = list(addrs)
+        addrs = (addrs[::-1] + addrs[:3]) if order == 1 else (addrs[1::2] + addrs[::2] + addrs[-2:])
     if fmt == 'z80':
         bits = bytearray(8192)
         for a in addrs:
@@ -147,7 +152,7 @@ def oracle(case, rec=None):
             if not mapped:
                 mp = None
             else:
-                argv += ['-m', write_map(s, mp['fmt'], mapped)]
+                argv += ['-m', write_map(s, mp['fmt'], mapped, case.get('map_order', 0))]
         argv.append(binf)
         res = run_with_alarm(lambda: _run_sna2ctl(argv), 120.0)
         if res[0] == 'hang':
